@@ -1648,6 +1648,10 @@ class AstEval:
         """Evaluate binary operator: &."""
         return (await self.aeval(arg0)) & (await self.aeval(arg1))
 
+    async def ast_binop_matmult(self, arg0, arg1):
+        """Evaluate binary operator: @."""
+        return (await self.aeval(arg0)) @ (await self.aeval(arg1))
+
     async def ast_binop_floordiv(self, arg0, arg1):
         """Evaluate binary operator: //."""
         return (await self.aeval(arg0)) // (await self.aeval(arg1))
